@@ -99,6 +99,7 @@ type Site struct {
 	NotIn   []string
 	Asserts []*Clause
 	Lets    []*Clause
+	Entry   []*Clause // ghost initialisation assumed at entry of the functions swept
 	Tags    []string
 	File    string
 	Line    int
@@ -123,6 +124,9 @@ type ContractSet struct {
 	Events     []*Event
 	Sites      []*Site
 	Immutables []*Immutable
+	Constants  map[string][]string // pkg path -> package-level variables that are never reassigned
+	Globals    []*Clause           // invariants of such constants (assumed)
+	GlobalPkg  map[*Clause]string
 	Sources    []string // files used
 	Scan       map[string]int // occurrences of assume/trusted
 	order      []*FuncContract
@@ -516,6 +520,23 @@ func (cs *ContractSet) parseFile(file, pkgPath string) error {
 		case "ghost":
 			reset()
 			cs.Ghosts = append(cs.Ghosts, strings.Fields(rest)...)
+		case "constant":
+			reset()
+			if cs.Constants == nil {
+				cs.Constants = map[string][]string{}
+			}
+			cs.Constants[pkgPath] = append(cs.Constants[pkgPath], strings.Fields(rest)...)
+		case "global":
+			reset()
+			c, err := mk("global", rest, l)
+			if err != nil {
+				return err
+			}
+			if cs.GlobalPkg == nil {
+				cs.GlobalPkg = map[*Clause]string{}
+			}
+			cs.Globals = append(cs.Globals, c)
+			cs.GlobalPkg[c] = pkgPath
 		case "event":
 			reset()
 			f := strings.Fields(rest)
@@ -669,13 +690,15 @@ func (cs *ContractSet) parseFile(file, pkgPath string) error {
 					curSite.Tags = append(curSite.Tags, strings.Fields(strings.ReplaceAll(rest, ",", " "))...)
 				case "min-sites":
 					fmt.Sscan(rest, &curSite.MinSites)
-				case "assert", "let":
+				case "assert", "let", "entry":
 					c, err := mk(word, rest, l)
 					if err != nil {
 						return err
 					}
 					if word == "let" {
 						curSite.Lets = append(curSite.Lets, c)
+					} else if word == "entry" {
+						curSite.Entry = append(curSite.Entry, c)
 					} else {
 						curSite.Asserts = append(curSite.Asserts, c)
 					}
